@@ -79,6 +79,19 @@ func main() {
 	os.MkdirAll(dir, 0755)
 	opts := &EncOpts{NonnilParams: *nonnil}
 	switch cmd {
+	case "immutable":
+		w.immutableArr("")
+		for _, f := range w.Mod.immutableFields() {
+			fmt.Println("immutable", f)
+		}
+		var ms []string
+		for a, why := range w.Mod.Mutable {
+			ms = append(ms, a+"  <- "+why)
+		}
+		sort.Strings(ms)
+		for _, m := range ms {
+			fmt.Println("mutable  ", m)
+		}
 	case "list":
 		for _, f := range w.FuncList {
 			if re == nil || re.MatchString(funcKey(f)) {
@@ -179,7 +192,3 @@ func truncate(s string, n int) string {
 	return s
 }
 
-func cmdCheck(args []string, repo, spec string, timeout int, verbose bool) int {
-	fmt.Println("check: not implemented yet")
-	return 2
-}
